@@ -43,7 +43,7 @@ FOREIGN = [' xmlns:f="http://f.example/ns" f:a="1"', ' xml:lang="en"', ' data-fo
 
 TAG_RE = re.compile(r'<([A-Za-z][\w:.-]*)((?:\s+[\w:.-]+=(?:"[^"]*"|\'[^\']*\'))*)(\s*/?>)')
 ATTR_RE = re.compile(r'(\s+)([\w:.-]+)(=)("[^"]*"|\'[^\']*\')')
-LEAK_RE = re.compile(r'(?:\b(?:tal|metal|i18n|meta|t9|m9|i9|p\d+):[A-Za-z-]+\s*=|xml\.zope\.org/namespaces/(?:tal|metal|i18n|meta)|data-(?:tal|metal|i18n|meta)-)')
+LEAK_RE = re.compile(r'(?:\b(?:tal|metal|i18n|meta|t9|m9|i9|p\d+|z\.tal|z\.metal|z\.i18n|z\.meta|zpt-tal|zpt-metal|zpt-i18n|zpt-meta|_t|_m|_i|_e|[\u03c4\u03bc\u03b9\u03b5]):[A-Za-z-]+\s*=|xml\.zope\.org/namespaces/(?:tal|metal|i18n|meta)|data-(?:tal|metal|i18n|meta)-)')
 
 
 def add_foreign(rng, src):
@@ -69,7 +69,12 @@ def respell(src, how, rng):
         return p if (':' in name and p in URI) else None
 
     if how == 'rename-root':
-        newp = {'tal': 't9', 'metal': 'm9', 'i18n': 'i9', 'meta': 'e9'}
+        # any NCName is a prefix: ASCII, with '.', '-' or '_', beginning with a non-ASCII letter
+        newp = rng.choice([{'tal': 't9', 'metal': 'm9', 'i18n': 'i9', 'meta': 'e9'}, {'tal': 't9', 'metal': 'm9', 'i18n': 'i9', 'meta': 'e9'},
+                           {'tal': 'z.tal', 'metal': 'z.metal', 'i18n': 'z.i18n', 'meta': 'z.meta'},
+                           {'tal': '\u03c4', 'metal': '\u03bc', 'i18n': '\u03b9', 'meta': '\u03b5'},
+                           {'tal': 'zpt-tal', 'metal': 'zpt-metal', 'i18n': 'zpt-i18n', 'meta': 'zpt-meta'},
+                           {'tal': '_t', 'metal': '_m', 'i18n': '_i', 'meta': '_e'}])
 
         def sub(m):
             attrs = ATTR_RE.sub(lambda a: a.group(1) + (newp[lang(a.group(2))] + a.group(2)[len(lang(a.group(2))):] if lang(a.group(2)) else a.group(2))
